@@ -141,14 +141,15 @@ func verifH_C03_http_request_routes() {
 // No continuation shape makes a panic escape the stream-continuation handler.
 //
 //verif:use ipc pipe handler httpx tokens
-//verif:bound one request to the continuation route of a registered unary / producer / exchange method or an unregistered name: Content-Type right or wrong; body unreadable, empty, or a batch of 0..1 rows whose metadata is any subset of {stream_state = ANY 3 bytes, call_state = ANY 3 bytes, cancel}; a genuine cursor + call token pair minted by the exchange method is in the token pool, so the arbitrary bytes include it (replayed tokens moved between methods).
+//verif:bound one request to the continuation route of a registered unary / producer / exchange method or an unregistered name: Content-Type right or wrong; body unreadable, empty, or a batch of 0..1 rows whose metadata is any subset of {stream_state = ANY 3 bytes, call_state = ANY 3 bytes, cancel}; a genuine cursor + call token pair minted by the exchange method is in the token pool, so the arbitrary bytes include it (replayed tokens moved between methods); the call-state cache is warm or absent (a sibling instance sharing the key).
 func verifH_C03_http_continuation_route() {
 	verifResetIPC()
 	verifResetHandler()
 	verifXReset()
 	verifToks = nil
 	verifC03Handler()
-	h := &HttpServer{server: verifPipeServer(), tokenKey: verifXKey, tokenTTL: time.Hour, callStates: newCallStateCache(4, time.Hour)}
+	// the instance that minted the tokens (warm call cache) or a sibling sharing the key (no cache)
+	h := &HttpServer{server: verifPipeServer(), tokenKey: verifXKey, tokenTTL: time.Hour, callStates: newCallStateCache(4*verifChoice("call_cache", 2), time.Hour)}
 	_, e1 := h.packCursorToken("c1", &verifPipeExchange{}, Anonymous())
 	_, e2 := h.packCallTokenFor("x", "c1", nil, Anonymous(), "sid")
 	verifAssert(e1 == nil && e2 == nil, "mint")
